@@ -149,7 +149,25 @@ func ExtractOffsetEncoder(fn *ssa.Function, isBuf func(ssa.Value) bool, guardTer
 		case *ssa.Store:
 			if ia, ok := x.Addr.(*ssa.IndexAddr); ok && isBuf(ia.X) {
 				if bt, ok := x.Val.Type().Underlying().(*types.Basic); ok && bt.Kind() == types.Uint8 {
+					if sl := splitInduction(ia.Index); sl != nil {
+						// buf[o+i] = byte(x >> (i*8)) for i in 0..N-1: one N-byte integer field
+						o := off(sl.off)
+						order, val := "?", ssa.Value(nil)
+						if sh, ok := stripNumConv(x.Val).(*ssa.BinOp); ok && sh.Op == token.SHR {
+							order = shiftOrder(sh.Y, sl)
+							val = sh.X
+						}
+						f := CField{Off: o.String(), offLin: o, Width: fmt.Sprint(sl.n), Order: order, Val: "?", Ins: ins, val: val}
+						if val != nil {
+							f.Val = valueExpr(val, lx)
+						}
+						out = append(out, f)
+						return
+					}
 					o := off(ia.Index)
+					if strings.Contains(o.String(), "phi:") {
+						return // element-wise scan of the buffer, not a field
+					}
 					out = append(out, CField{Off: o.String(), offLin: o, Width: "1", Order: "-", Val: valueExpr(x.Val, lx), Ins: ins, val: x.Val})
 				}
 			}
@@ -249,6 +267,22 @@ func ExtractOffsetDecoder(fn *ssa.Function, isBuf func(ssa.Value) bool, guardTer
 		case *ssa.UnOp:
 			if x.Op == token.MUL {
 				if ia, ok := x.X.(*ssa.IndexAddr); ok && isBuf(ia.X) {
+					if sl := splitInduction(ia.Index); sl != nil {
+						// acc |= T(buf[o+i]) << (i*8) for i in 0..N-1: one N-byte integer field, value = acc
+						acc, order := shiftAccumulator(x, sl)
+						var val ssa.Value = x
+						if acc != nil {
+							val = acc
+						} else {
+							order = "?"
+						}
+						evs = append(evs, ev{ins: ins, val: val, width: fmt.Sprint(sl.n), order: order, lo: sl.off})
+						return
+					}
+					var lx0 LinX
+					if strings.Contains(lx0.Lin(ia.Index).String(), "phi:") {
+						return // element-wise scan of the buffer (debug dump), not a field
+					}
 					evs = append(evs, ev{ins: ins, val: x, width: "1", order: "-", lo: ia.Index})
 				}
 			}
@@ -452,4 +486,151 @@ func normGuard(g string) string {
 		}
 	}
 	return strings.Join(out, " && ")
+}
+
+// shiftLoop: an index of the form o+i where i counts 0..n-1 in a counting loop.
+type shiftLoop struct {
+	off ssa.Value // nil: offset 0
+	i   *ssa.Phi
+	n   int64
+}
+
+// countingPhi: v is the induction variable of `for i := 0; i < N; i++` with constant N.
+func countingPhi(v ssa.Value) (*ssa.Phi, int64, bool) {
+	phi, ok := v.(*ssa.Phi)
+	if !ok || len(phi.Edges) != 2 {
+		return nil, 0, false
+	}
+	zero, step := false, false
+	for _, e := range phi.Edges {
+		if k, ok := constInt(e); ok && k == 0 {
+			zero = true
+			continue
+		}
+		if bo, ok := e.(*ssa.BinOp); ok && bo.Op == token.ADD && bo.X == ssa.Value(phi) {
+			if k, ok := constInt(bo.Y); ok && k == 1 {
+				step = true
+			}
+		}
+	}
+	if !zero || !step {
+		return nil, 0, false
+	}
+	b := phi.Block()
+	iff, ok := b.Instrs[len(b.Instrs)-1].(*ssa.If)
+	if !ok {
+		return nil, 0, false
+	}
+	bo, ok := iff.Cond.(*ssa.BinOp)
+	if !ok || bo.Op != token.LSS || bo.X != ssa.Value(phi) {
+		return nil, 0, false
+	}
+	n, ok := constInt(bo.Y)
+	if !ok || n <= 0 || n > 8 {
+		return nil, 0, false
+	}
+	return phi, n, true
+}
+
+func splitInduction(idx ssa.Value) *shiftLoop {
+	if phi, n, ok := countingPhi(idx); ok {
+		return &shiftLoop{i: phi, n: n}
+	}
+	bo, ok := idx.(*ssa.BinOp)
+	if !ok || bo.Op != token.ADD {
+		return nil
+	}
+	if phi, n, ok := countingPhi(bo.Y); ok {
+		return &shiftLoop{off: bo.X, i: phi, n: n}
+	}
+	if phi, n, ok := countingPhi(bo.X); ok {
+		return &shiftLoop{off: bo.Y, i: phi, n: n}
+	}
+	return nil
+}
+
+// shiftOrder: the shift amount i*8 means least significant byte first (LE); (n-1-i)*8 means BE.
+func shiftOrder(sh ssa.Value, sl *shiftLoop) string {
+	sh = stripNumConv(sh)
+	mul, ok := sh.(*ssa.BinOp)
+	if !ok || mul.Op != token.MUL {
+		return "?"
+	}
+	x, y := stripNumConv(mul.X), stripNumConv(mul.Y)
+	if k, ok := constInt(x); ok && k == 8 {
+		x, y = y, x
+	}
+	if k, ok := constInt(y); !ok || k != 8 {
+		return "?"
+	}
+	if x == ssa.Value(sl.i) {
+		return "LE"
+	}
+	if sub, ok := x.(*ssa.BinOp); ok && sub.Op == token.SUB && stripNumConv(sub.Y) == ssa.Value(sl.i) {
+		if k, ok := constInt(sub.X); ok && k == sl.n-1 {
+			return "BE"
+		}
+	}
+	return "?"
+}
+
+// shiftAccumulator: follows byte load -> convert -> << (i*8) -> acc | _ -> acc phi in the loop header.
+func shiftAccumulator(load ssa.Value, sl *shiftLoop) (*ssa.Phi, string) {
+	var walk func(v ssa.Value, shifted string, d int) (*ssa.Phi, string)
+	walk = func(v ssa.Value, shifted string, d int) (*ssa.Phi, string) {
+		if d > 4 || v.Referrers() == nil {
+			return nil, ""
+		}
+		for _, ref := range *v.Referrers() {
+			switch x := ref.(type) {
+			case *ssa.Convert:
+				if p, o := walk(x, shifted, d+1); p != nil {
+					return p, o
+				}
+			case *ssa.BinOp:
+				switch {
+				case x.Op == token.SHL && x.X == v && shifted == "":
+					if p, o := walk(x, shiftOrder(x.Y, sl), d+1); p != nil {
+						return p, o
+					}
+				case (x.Op == token.OR || x.Op == token.ADD) && shifted != "":
+					other := x.X
+					if other == v {
+						other = x.Y
+					}
+					acc, ok := other.(*ssa.Phi)
+					if !ok || acc.Block() != sl.i.Block() || len(acc.Edges) != 2 {
+						continue
+					}
+					zero, back := false, false
+					for _, e := range acc.Edges {
+						if k, ok := constInt(e); ok && k == 0 {
+							zero = true
+						}
+						if e == ssa.Value(x) {
+							back = true
+						}
+					}
+					if zero && back {
+						return acc, shifted
+					}
+				}
+			}
+		}
+		return nil, ""
+	}
+	return walk(load, "", 0)
+}
+
+func stripNumConv(v ssa.Value) ssa.Value {
+	for {
+		switch x := v.(type) {
+		case *ssa.Convert:
+			v = x.X
+		case *ssa.ChangeType:
+			v = x.X
+		default:
+			return v
+		}
+	}
 }
